@@ -194,12 +194,12 @@ func init() {
 		Level: "model_checking",
 		Rule:  "every schedule (thread interleaving at scheduling points + pool answers) of every driver with at most `bound` deviations is one execution; a driver is non-trivial if it completed at least one execution; distinct observed outcomes are counted per driver",
 		Assumptions: []string{
-			"scheduling points: every Mutex.Lock/Unlock, Pool.Get/Put and the entry of every named function of the package (inserted mechanically by vinstr); accesses between two points are atomic for the explorer and are covered by the separate free-running -race pass (h/cmd/racepass), which is a happens-before detector on sampled schedules",
+			"scheduling points: every Mutex.Lock/Unlock, Pool.Get/Put, the entry of every named function of the package and every statement that uses sync/atomic (none in the library today), all inserted mechanically by vinstr; accesses between two points are atomic for the explorer and are covered by the separate free-running -race pass (h/cmd/racepass), which is a happens-before detector on sampled schedules",
 			"every execution starts from freshly parsed functions and freshly decoded documents; pools are emptied",
 			"a failing schedule is replayed and must reproduce identically before it is reported",
 		},
 		Bounds: map[string]string{
-			"quick":    "drivers: 51 shared-function pairs (one per node/comparator/logical/function kind; outcome-flipping documents) and 12 more with two succeeding documents of different sizes, 64 Parse||Parse pairs, 48 Parse||call, 16 three-thread, 8 two-functions-one-document, 10 two-operations-per-thread, and one generated driver for EVERY path of <=1 step over the full step alphabet (functions included) and every two-step path over the mid alphabet (674: a shared parsed function called by two threads on two documents picked by exhaustive scoring - both succeed, root containers of different sizes where possible; for the one-step paths also a driver in which both calls fail with a type error naming different found types), 7 drivers on documents whose leaves have Go types the process has never seen before (one per kind of step applied to them); all schedules with <=1 deviation (preemption or non-default pool answer) at every scheduling point, and <=2 deviations at coarse points (lock/pool operations, public API, parser phases, every retrieve/compute method)",
+			"quick":    "drivers: 51 shared-function pairs (one per node/comparator/logical/function kind; outcome-flipping documents) and 12 more with two succeeding documents of different sizes, 64 Parse||Parse pairs, 48 Parse||call, 16 three-thread, 8 two-functions-one-document, 10 two-operations-per-thread, and one generated driver for EVERY path of <=1 step over the full step alphabet (functions included) and every two-step path over the mid alphabet (674: a shared parsed function called by two threads on two documents picked by exhaustive scoring - both succeed, root containers of different sizes where possible; for the one-step paths also a driver in which both calls fail with a type error naming different found types), 4 drivers that first evaluate an object of 70 members and then two small ones concurrently, 7 drivers on documents whose leaves have Go types the process has never seen before (one per kind of step applied to them); all schedules with <=1 deviation (preemption or non-default pool answer) at every scheduling point, and <=2 deviations at coarse points (lock/pool operations, public API, parser phases, every retrieve/compute method)",
 			"thorough": "144 Parse||Parse pairs; two-thread drivers: <=2 deviations at every point and <=3 at coarse points; three-thread drivers: <=1 at every point, <=3 at coarse points; generated drivers for every path of <=2 steps over the full alphabet (about 3k), <=2 deviations",
 		},
 		New:   newC06,
